@@ -465,6 +465,11 @@ def main():
         nphi = int(2 * rng.integers(7, 23) + 1) if tried % 2 else int(2 * rng.integers(15, 31) + 1)
         try:
             cfg, q = gen_admissible(rng, order=order, asym=bool(rng.integers(0, 2)), qh=(tried % 3 == 0) ^ (tried % 2 == 0), signs=sg, nphi=nphi)
+            if not q.lasym and tried % 4 == 1:
+                c2 = single_knob_variant(cfg, rng)        # exactly one symmetry-breaking input (B2s alone, sigma0 alone, ...)
+                q2, msgs = build(c2)
+                if admissible(q2, msgs):
+                    cfg, q = c2, q2
         except RuntimeError:
             continue
         key = '%s/%s/%s/nfp%d' % ('QH' if q.helicity else 'QA', 'asym' if q.lasym else 'sym', cfg['order'], cfg['nfp'])
